@@ -9,6 +9,7 @@ Oracle : (f == g) == (str(f) == str(g)); (f != g) is its negation; symmetric; (f
          eval(repr(f), vars(curtsies.fmtfuncs)) has the same cells as f.
 """
 from mc import cells as C
+from mc import repeat
 from mc.runner import Acc, Report
 
 LEVEL = "model_checking"
@@ -178,8 +179,62 @@ def shard_repr_texts(args):
     return acc.export()
 
 
+def shard_scale(args):
+    """Sizes far beyond small: each value against an equal twin built separately, a twin differing in its last character, a twin
+    differing in one run's formatting, its own terminal string and text; hash, dict lookup; repr round trip."""
+    tier, seed, idx, nshards = args
+    import curtsies.fmtfuncs
+
+    ns = vars(curtsies.fmtfuncs)
+    acc = Acc(seed=seed, sample_stride=4999)
+    specs = C.scale_specs(tier == "thorough")
+    for si in range(idx, len(specs), nshards):
+        spec = specs[si]
+        shown = {"scale_value": {"characters": sum(len(t) for t, _ in spec), "runs": len(spec), "first_runs": C.show_spec(spec[:3])}}
+        f = C.build(spec)
+        twin = C.build(spec)
+        last = next(k for k in range(len(spec) - 1, -1, -1) if spec[k][0])
+        other_text = spec[:last] + ((spec[last][0][:-1] + ("#" if spec[last][0][-1] != "#" else "%"), spec[last][1]),) + spec[last + 1 :]
+        mid = next(k for k in range(len(spec) // 2, len(spec)) if spec[k][0])
+        other_att = spec[:mid] + ((spec[mid][0], (("fg", 36), ("italic", True))),) + spec[mid + 1 :]
+        cands = [("equal twin", twin, True), ("last character differs", C.build(other_text), False), ("one run's formatting differs", C.build(other_att), False)]
+        sf = fresh_str(f)
+        acc.case(True, key=("scale", si), sample=shown)
+        if str(f) != sf:
+            acc.failure("C19:terminal_string_memo_differs_from_fresh_rendering", shown, "")
+        for label, g, want in cands:
+            case = dict(shown, other=label)
+            acc.transitions += 1
+            if (fresh_str(g) == sf) is not want:
+                acc.failure("harness:scale_twin", case, "")
+                continue
+            for rnd in range(2):  # before and after hashing / rendering both
+                try:
+                    eq, ne, eq2 = (f == g), (f != g), (g == f)
+                except Exception as ex:  # noqa
+                    acc.failure("C19:eq_raises:" + type(ex).__name__, case, repr(ex))
+                    break
+                if eq is not want or ne is want or eq2 is not want:
+                    acc.failure("C19:eq_vs_terminal_string", case, "==:%r !=:%r reversed==:%r, terminal strings equal: %r" % (eq, ne, eq2, want))
+                    break
+                if want and hash(f) != hash(g):
+                    acc.failure("C19:equal_but_hash_differs", case, "")
+                    break
+            d = {f: 1}
+            if (g in d) is not want:
+                acc.failure("C19:dict_lookup", case, "membership %r, expected %r" % (g in d, want))
+        for s_, want in ((sf, True), (f.s, sf == f.s), (sf + "x", False)):
+            if (f == s_) is not want or (s_ == f) is not want or (want and hash(s_) != hash(f)):
+                acc.failure("C19:eq_str_vs_terminal_string", dict(shown, s="terminal string" if s_ is sf else "other"), "")
+        repr_check(acc, f, dict(shown, op="repr"), ns)
+    return acc.export()
+
+
 def run(ctx):
     rep = Report()
+    repeat.run_into(ctx, rep, "C19")
+    for d in ctx.pmap(shard_scale, [(ctx.tier, ctx.seed, i, 32) for i in range(32)]):
+        rep.merge(d, "scale_sweep")
     for d in ctx.pmap(shard_pairs, [(ctx.tier, ctx.seed, i) for i in range(NSHARDS)]):
         rep.merge(d, "pairs")
     for d in ctx.pmap(shard_repr, [(ctx.tier, ctx.seed, i) for i in range(16)]):
